@@ -606,7 +606,36 @@ def serial_raw_rule(ctx, rid):
         raise AnalysisBroken('%s: only %d settings found' % (rid, n))
 
 
+def r23(ctx):
+    ctx.rule('C01.R23', 'after a NAK the part that is repeated starts empty: in the acknowledge states of handleReceive the buffer '
+             'that is cleared for the repetition is the one of that part - m_command in recvCmdAck / sendCmdAck, m_response in '
+             'recvResAck / sendResAck. With the buffer of the other part cleared, the repetition is appended to the first '
+             'attempt, a data byte is compared as CRC and the telegram is not reported', minimum=4)
+    fb = ctx.fb
+    fn = fb.fn(A.HR)
+    ctx.touch(fn)
+    states, _ = A.bus_states(fb)
+    want = {'bs_recvCmdAck': 'this.m_command', 'bs_sendCmdAck': 'this.m_command', 'bs_recvResAck': 'this.m_response', 'bs_sendResAck': 'this.m_response'}
+    n = 0
+    for c in fn.calls('clear'):
+        v = fn.nodes[c]
+        if 'obj' not in v or fn.key(v['obj']) not in ('this.m_command', 'this.m_response'):
+            continue
+        st = None
+        for k, p_ in ((a[0], a[1]) for a in fn.atoms(c)):
+            if k.startswith('switch:this.m_state='):
+                st = states.get(int(k.split('=')[-1])) if k.split('=')[-1].lstrip('-').isdigit() else None
+        if st not in want:
+            continue
+        n += 1
+        ok = fn.key(v['obj']) == want[st]
+        ctx.ob('C01.R23', fn, c, ok, '%s.clear() in %s' % (fn.key(v['obj']).split('.')[-1], st), 'the buffer of the part that is repeated (%s): %s' % (want[st].split('.')[-1], ok))
+    if n < 4:
+        raise AnalysisBroken('C01.R23: only %d buffer resets found in the acknowledge states of handleReceive' % n)
+
+
 def run(ctx):
+    r23(ctx)
     import rules.common as _cm
     ctx.rule('C01.R22', "a value is compared with a constant in the domain of its own type: in the sources of this property every comparison of a variable, member, element or call result with an integer constant (==, !=) has the constant inside the value range of the operand's own integer type before promotion - a symbol held in a signed char never equals 0xA9/0xAA/0xFE, so the escape, SYN or broadcast test behind it is dead for exactly the symbols it exists for", minimum=60)
     _cm.compare_domain_rule(ctx, 'C01.R22', lambda f: f.relfile.startswith(('src/lib/ebus/protocol', 'src/lib/ebus/symbol.', 'src/lib/ebus/device')), 60)
